@@ -2162,6 +2162,38 @@ def _in_loop(n, stop) -> bool:
     return any(isinstance(a, (ast.For, ast.While)) for a in _ancestors(n, stop))
 
 
+
+def r17_2_content_skip(ctx: Ctx) -> None:
+    """structural complement of R17.2: the index at which a later input's body starts may depend on the position of the
+    font-table marker only.  An index that is ADVANCED under a condition on the content of the line it points at, where
+    that condition does not mention the marker, drops lines of the input by what they contain (page geometry, margins,
+    blank lines ...) - positive evidence that a later input no longer keeps its own body."""
+    import ast as _ast
+    from ..pm import unparse as _u, walk_no_nested as _walk
+    pm = ctx.pm
+    fns = [f for f in pm.funcs.values() if f.module.endswith(".assemble")]
+    n_loops = 0
+    for fi in fns:
+        markers = {c.value for c in _ast.walk(fi.node) if isinstance(c, _ast.Compare) and any(isinstance(o, (_ast.In, _ast.NotIn)) for o in c.ops)
+                   for c in [c.left] if isinstance(c, _ast.Constant) and isinstance(c.value, str)}
+        for w in [n for n in _ast.walk(fi.node) if isinstance(n, _ast.While)]:
+            n_loops += 1
+            incs = {a.target.id for a in _ast.walk(w) if isinstance(a, _ast.AugAssign) and isinstance(a.target, _ast.Name) and isinstance(a.op, _ast.Add)}
+            for idx in incs:
+                reads = [sub for sub in _ast.walk(w.test) if isinstance(sub, _ast.Subscript) and isinstance(sub.slice, _ast.Name) and sub.slice.id == idx]
+                if not reads:
+                    continue
+                lits = {c.value for c in _ast.walk(w.test) if isinstance(c, _ast.Constant) and isinstance(c.value, str)}
+                used_as_start = any(isinstance(r, _ast.Return) and r.value is not None and any(isinstance(x, _ast.Name) and x.id == idx for x in _ast.walk(r.value)) for r in _ast.walk(fi.node)) \
+                    or any(isinstance(sl, _ast.Slice) and sl.lower is not None and any(isinstance(x, _ast.Name) and x.id == idx for x in _ast.walk(sl.lower)) for sl in _ast.walk(fi.node))
+                ctx.instance("R17.2", fi.where(w), f"{fi.short}: while loop advances `{idx}` under a test of `{_u(reads[0])}` (literals {sorted(lits)[:4]}); used as a start index: {used_as_start}")
+                if used_as_start and not (lits & markers):
+                    ctx.violation("R17.2", fi.short, "body start advanced by line content", fi.where(w),
+                                  f"{fi.short}: the start index `{idx}` of an input's body is advanced while `{_u(w.test)[:100]}` holds - lines are skipped because of what they contain, "
+                                  "not because they belong to the font table: a later input loses its own page geometry / leading lines")
+    ctx.extra["r17_2_while_loops_inspected"] = n_loops
+
+
 def check(ctx: Ctx) -> None:
     ctx.explain(
         "R17.1 layout agreement between writers and reader: from the abstract document shape of each encode path the literal preamble is taken; the line offset from the last line "
@@ -2178,6 +2210,7 @@ def check(ctx: Ctx) -> None:
                "(0<K<N-1); any other condition on the sequence as a whole is an analysis gap")
     ctx.undecided("that the assembled pages equal the concatenation for concrete inputs (content of body lines; lines that themselves contain the marker); colour tables of later inputs")
     ctx.undecided("I/O errors other than a missing input; interplay of more than one loop iteration beyond the generic inductive step")
+    r17_2_content_skip(ctx)
     sm = r17_2(ctx)
     r17_1(ctx, sm.markers if sm else set(), sm.offsets if sm else set())
     r17_3(ctx)
